@@ -283,7 +283,8 @@ def check_environment(rnd, stats, seed):
         def get_output(self, gs, action):
             ss = self.get_step_state(gs)
             h = jax.lax.bitcast_convert_type(jnp.asarray(action, jnp.float32).reshape(-1)[0], jnp.uint32)
-            return W.WOut(src=jnp.int32(sup.idx), seq=jnp.asarray(ss.seq, jnp.int32), nonce=jnp.asarray(ss.params.nonce, jnp.int32), h=h)
+            return W.WOut(src=jnp.int32(sup.idx), seq=jnp.asarray(ss.seq, jnp.int32), nonce=jnp.asarray(ss.params.nonce, jnp.int32), h=h,
+                          vec=jnp.stack([h, h ^ jnp.uint32(W.VEC_X), (h >> 7) | jnp.uint32(1)]))
 
         def get_reward(self, gs, action):
             return jnp.float32(1.0)
